@@ -306,13 +306,13 @@ var verifHeadBuf = objectwire.NonPayloadFieldsBufferLength
 
 // VerifC10ReadHeader: a combined file of two or three objects written by the
 // real batch writer, with object sizes around the reader's buffer length B
-// (here 48 instead of 20480: 1, B-1, B, B+1, 2B+3 bytes): for every member,
+// (here 100 instead of 20480: 1, B-1, B, B+1, 2B+3 bytes): for every member,
 // readHeader's buffered head followed by the rest of the stream it returns is
 // exactly that member's bytes - nothing of the neighbours, nothing missing.
 func VerifC10ReadHeader() {
 	c10install()
 	defer func() { c10 = nil }()
-	const b = 48
+	const b = 100
 	verifHeadBuf = b
 	defer func() { verifHeadBuf = objectwire.NonPayloadFieldsBufferLength }()
 	t := New(WithPath("/root"), WithDepth(0))
